@@ -170,6 +170,7 @@ int main(int argc, char** argv) {
     if (tok[0][0] == 'S') { int s = atoi(tok[1]), i; if (s < 0 || s >= MAXSETS || atoi(tok[2]) > 256) { fprintf(stderr, "driver: operand set out of range\n"); return 2; } setN[s] = atoi(tok[2]); for (i = 0; i < setN[s]; i++) sets[s][i] = strtoull(tok[3 + i], NULL, 0); continue; }
     step++;
     switch (tok[0][0]) {
+    case 'F': { int k = atoi(tok[1]); @M@FreeInstance(&insts[k]); fprintf(OUT, "%d F %d ok\n", step, k); break; }
     case 'I': { int k = atoi(tok[1]); cur = k; memset(&insts[k], 0, sizeof insts[k]);
       if (setjmp(jb) == 0) { @M@Instantiate(&insts[k], resolve); fprintf(OUT, "%d I %d ok\n", step, k); }
       else fprintf(OUT, "%d I %d fail:%s\n", step, k, trapName(trapCode));
